@@ -3,7 +3,7 @@
 EXTENDS TraceBase, Pes, TsPacket
 PesVerdict(e) ==
   LET b == e.bytes IN
-  IF ~WellFormed(b) \/ Len(b) < 7 THEN "harness-not-wellformed"
+  IF ~WellFormed(b) \/ Len(b) < 7 THEN (IF e.lenient THEN "" ELSE "harness-not-wellformed")   \* fuzzer-chosen bytes need not be a PES start
   ELSE IF e.err THEN "wellformed-header-rejected"
   ELSE IF e.prefix # Prefix(b) THEN "start-code-prefix"
   ELSE IF e.sid # Sid(b) THEN "stream-id"
